@@ -371,6 +371,12 @@ fn int_apply(ctx: &mut Ctx, v: &mut IntVector, m: &mut IntModel, op: &IntOp, his
             match guard(|| $e) { Ok(x) => x, Err(p) => { ctx.violation($sig, format!("{} after {}", p, hist())); return false; } }
         };
     }
+    // Constructors with a valid width (1..=64) must return Ok.
+    macro_rules! construct {
+        ($sig:expr, $e:expr) => {
+            match run!($sig, $e) { Ok(x) => x, Err(e) => { ctx.violation(&format!("{}.refused", $sig.trim_end_matches("!panic")), format!("constructor refused a valid width ({}) after {}", e, hist())); return false; } }
+        };
+    }
     match op {
         IntOp::Push(x) => { run!("int.push!panic", v.push(*x)); m.items.push(trunc(*x, m.width)); },
         IntOp::Pop => { let want = m.items.pop(); ok &= ctx.expect_eq("int.pop", || format!("pop() after {}", hist()), &guard(|| v.pop()), &want); },
@@ -403,9 +409,9 @@ fn int_apply(ctx: &mut Ctx, v: &mut IntVector, m: &mut IntModel, op: &IntOp, his
             m.width = w;
             m.items = xs.iter().map(|x| trunc(*x, w)).collect();
         },
-        IntOp::New(w) => { *v = run!("int.new!panic", IntVector::new(*w)).unwrap(); m.width = *w; m.items.clear(); },
-        IntOp::WithLen(n, w, x) => { *v = run!("int.with_len!panic", IntVector::with_len(*n, *w, *x)).unwrap(); m.width = *w; m.items = vec![trunc(*x, *w); *n]; },
-        IntOp::WithCapacity(n, w) => { *v = run!("int.with_capacity!panic", IntVector::with_capacity(*n, *w)).unwrap(); m.width = *w; m.items.clear(); },
+        IntOp::New(w) => { *v = construct!("int.new!panic", IntVector::new(*w)); m.width = *w; m.items.clear(); },
+        IntOp::WithLen(n, w, x) => { *v = construct!("int.with_len!panic", IntVector::with_len(*n, *w, *x)); m.width = *w; m.items = vec![trunc(*x, *w); *n]; },
+        IntOp::WithCapacity(n, w) => { *v = construct!("int.with_capacity!panic", IntVector::with_capacity(*n, *w)); m.width = *w; m.items.clear(); },
         IntOp::Iter => {
             let got = guard(|| { let it = v.iter(); let l = it.len(); (it.collect::<Vec<u64>>(), l) });
             ok &= ctx.expect_eq("int.iter", || format!("iter() after {}", hist()), &got, &(m.items.clone(), m.items.len()));
@@ -491,7 +497,7 @@ fn int_random(ctx: &mut Ctx) {
             let long = hr.chance(1, 4);
         let steps = 1 + hr.below(if long { 200 } else { 40 });
             let max_len = *hr.pick(&[5usize, 17, 40, 130]);
-            let mut v = IntVector::new(width).unwrap();
+            let mut v = match guard(|| IntVector::new(width)) { Ok(Ok(x)) => x, other => { ctx.violation("int.new.refused", format!("IntVector::new({}) did not return a vector: {:?}", width, other.map(|r| r.map(|_| ())))); continue; } };
             let mut m = IntModel { width, items: Vec::new() };
             let mut log: Vec<String> = vec![format!("new({})", width)];
             let mut kinds: Vec<u64> = vec![width as u64];
@@ -525,7 +531,7 @@ fn int_exhaustive(ctx: &mut Ctx) {
                 let code = next;
                 next += n;
                 if !ctx.begin_case() { continue; }
-                let mut v = IntVector::with_len(9, w, !0u64).unwrap();
+                let mut v = match guard(|| IntVector::with_len(9, w, !0u64)) { Ok(Ok(x)) => x, other => { ctx.violation("int.with_len.refused", format!("IntVector::with_len(9, {}, !0) did not return a vector: {:?}", w, other.map(|r| r.map(|_| ())))); continue; } };
                 let mut m = IntModel { width: w, items: vec![trunc(!0u64, w); 9] };
                 let mut log: Vec<String> = vec![format!("with_len(9,{},!0)", w)];
                 let mut c = code;
